@@ -11,8 +11,9 @@ from concurrent.futures import ProcessPoolExecutor, FIRST_COMPLETED, wait
 import multiprocessing
 
 VERIF = os.path.dirname(os.path.dirname(os.path.abspath(__file__)))
-EVIDENCE = os.path.join(VERIF, "evidence")
-REPLAYS = os.path.join(VERIF, "replays")
+_OUT = os.environ.get("VERIF_OUT") or VERIF       # (override: isolated trial runs of seeded changes)
+EVIDENCE = os.path.join(_OUT, "evidence")
+REPLAYS = os.path.join(_OUT, "replays")
 KNOWN = os.path.join(VERIF, "KNOWN_FINDINGS.txt")
 
 NWORKERS = int(os.environ.get("VERIF_WORKERS", "14"))
